@@ -8,7 +8,7 @@ Overview: Provides path resolution utilities for the file placement linter. Conv
     cross-platform compatibility, and handles edge cases like paths outside project root.
     Isolates path manipulation logic from rule checking and pattern matching.
 
-Dependencies: pathlib
+Dependencies: os.path, pathlib
 
 Exports: PathResolver
 
@@ -17,6 +17,7 @@ Interfaces: get_relative_path(file_path) -> Path, normalize_path_string(path) ->
 Implementation: Uses pathlib for robust path operations, handles ValueError for out-of-tree paths
 """
 
+import os
 from pathlib import Path
 
 
@@ -41,10 +42,12 @@ class PathResolver:
             Path relative to project root, or original path if outside project
         """
         try:
+            # Collapse "." and ".." lexically (symlinks are not followed): the verdict must not
+            # depend on how the path was spelled
             if file_path.is_absolute():
-                return file_path.relative_to(self.project_root)
+                return Path(os.path.normpath(file_path)).relative_to(self.project_root)
             # A relative spelling is relative to the working directory, not to the project root
-            return (Path.cwd() / file_path).relative_to(self.project_root)
+            return Path(os.path.normpath(Path.cwd() / file_path)).relative_to(self.project_root)
         except ValueError:
             # If path is outside project root, return it as-is
             # This allows detection of absolute paths in global_deny patterns
